@@ -265,7 +265,7 @@ pub fn case(rng: &mut Rng, w: &Weights, tag: &str) -> String {
             run = Box::new(move |t| t.apply_func(&a));
         } else if { pick -= w.apply_func; pick < w.compose0 + w.compose1 } {
             let prune = pick >= w.compose0;
-            let wit = if tag == "C05" && rng.chance(1, 3) { witness_operand(rng, &t, m) } else { None };
+            let wit = if tag == "C05" && rng.chance(1, 2) { witness_operand(rng, &t, m) } else { None };
             let (gname, g) = if let Some((s, g, p)) = wit {
                 m = p;
                 (s, g)
